@@ -1587,6 +1587,23 @@ def cumsum(a, axis=None, **k):
 
 
 np.cumsum = cumsum
+
+
+def trim_zeros(filt, trim='fb'):
+    if is_sym(filt):
+        A = list(to_sarr(filt).ravel())
+        lo, hi = 0, len(A)
+        if 'f' in trim.lower():
+            while lo < hi and bool(_cmp('eq')(A[lo], 0)):          # forks on symbolic elements
+                lo += 1
+        if 'b' in trim.lower():
+            while hi > lo and bool(_cmp('eq')(A[hi - 1], 0)):
+                hi -= 1
+        return to_sarr(A[lo:hi], getattr(filt, 'ldtype', None)) if isinstance(filt, rnp.ndarray) else A[lo:hi]
+    return rnp.trim_zeros(filt, trim)
+
+
+np.trim_zeros = trim_zeros
 np.argmax = _argext('argmax')
 np.argmin = _argext('argmin')
 
